@@ -34,6 +34,7 @@ PLAN = {
 
 # properties whose cases contain many executions: the probe that counts them
 SUBRUNS = {
+    "C03": ["variants"],
     "C08": ["fault.points.writer", "fault.points.reader", "scenarios.writer", "scenarios.reader"],
     "C09": ["cuts"],
     "C11": ["ranges"],
@@ -57,11 +58,31 @@ def die2(msg):
     sys.exit(2)
 
 
+REPO = os.environ.get("VERIF_REPO", "/repo")
+
+
+def modfile_args():
+    """Checks always build against /repo. For the evaluation of seeded changes in a scratch worktree
+    (so that /repo is not touched while other runs use it) VERIF_REPO points the module replacement
+    elsewhere through an alternative go.mod."""
+    if REPO == "/repo":
+        return []
+    os.makedirs(BIN, exist_ok=True)
+    alt = os.path.join(BIN, "alt-%s.mod" % re.sub(r"\W+", "_", REPO))
+    with open(os.path.join(HARNESS, "go.mod")) as f:
+        mod = f.read().replace("=> /repo/v2", "=> %s/v2" % REPO)
+    with open(alt, "w") as f:
+        f.write(mod)
+    open(alt[:-4] + ".sum", "a").close()
+    return ["-modfile=" + alt]
+
+
 def build(prop, race=False):
     os.makedirs(BIN, exist_ok=True)
-    out = os.path.join(BIN, "simrun-%s%s" % (prop, "-race" if race else ""))
+    suffix = "" if REPO == "/repo" else "-" + re.sub(r"\W+", "_", REPO)
+    out = os.path.join(BIN, "simrun-%s%s%s" % (prop, "-race" if race else "", suffix))
     tmp = out + ".tmp%d" % os.getpid()
-    cmd = [GO, "build", "-tags", "verif"]
+    cmd = [GO, "build", "-tags", "verif"] + modfile_args()
     if race:
         cmd.append("-race")
     cmd += ["-o", tmp, "./cmd/simrun"]
@@ -78,12 +99,13 @@ def build_cli():
     """Builds the real CLI (package main of v2/app) from /repo's working tree with the hooks on and
     one extra file overlaid (it only adds a blank import of harness/cliinit)."""
     os.makedirs(BIN, exist_ok=True)
-    ov = os.path.join(BIN, "overlay.json")
+    suffix = "" if REPO == "/repo" else "-" + re.sub(r"\W+", "_", REPO)
+    ov = os.path.join(BIN, "overlay%s.json" % suffix)
     with open(ov, "w") as f:
-        json.dump({"Replace": {"/repo/v2/app/zz_verif_init.go": os.path.join(VERIF, "overlay", "zz_verif_init.go")}}, f)
-    out = os.path.join(BIN, "kanzi-cli")
+        json.dump({"Replace": {REPO + "/v2/app/zz_verif_init.go": os.path.join(VERIF, "overlay", "zz_verif_init.go")}}, f)
+    out = os.path.join(BIN, "kanzi-cli" + suffix)
     tmp = out + ".tmp%d" % os.getpid()
-    p = subprocess.run([GO, "build", "-tags", "verif", "-overlay", ov, "-o", tmp, "github.com/flanglet/kanzi-go/v2/app"],
+    p = subprocess.run([GO, "build", "-tags", "verif"] + modfile_args() + ["-overlay", ov, "-o", tmp, "github.com/flanglet/kanzi-go/v2/app"],
                        cwd=HARNESS, env=GOENV, stdout=subprocess.PIPE, stderr=subprocess.STDOUT, text=True)
     if p.returncode != 0:
         die2("CLI build failed:\n" + p.stdout[-4000:])
@@ -184,7 +206,8 @@ def run_workers(binary, prop, seed, tier, ncases, budget, extra=None, samples=2)
                 cls = "data-race"
             detail = summarize_death(etxt, p.returncode)
             with lock:
-                results.append({"prop": prop, "i": started, "v": "fail", "class": cls, "detail": detail, "feat": death_feat(etxt), "ev": 0, "tasks": 0, "nt": True, "tape": None, "tl": 0, "stderr": etxt[-6000:]})
+                results.append({"prop": prop, "i": started, "v": "fail", "class": cls, "detail": detail, "feat": death_feat(etxt), "ev": 0, "tasks": 0, "nt": True, "tape": None, "tl": 0, "stderr": etxt[-6000:],
+                                "context": {"from": frm, "step": w}})
             frm = started + w
             restarts += 1
             if restarts > 50:
@@ -236,6 +259,8 @@ def shrink_and_confirm(binary, prop, seed, tier, res):
     path = os.path.join(rdir, "%s-%d-%d.json" % (prop, seed, res["i"]))
     rf = {"engine": "ksim-1", "property": prop, "seed": seed, "case": res["i"], "tier": tier, "class": res.get("class", ""),
           "detail": res.get("detail", ""), "feat": res.get("feat") or [], "tape": res["tape"], "shrunk": False}
+    if res.get("context"):
+        rf["context"] = res["context"]
     with open(path, "w") as f:
         json.dump(rf, f)
     env = dict(os.environ, GOMAXPROCS="1")
@@ -249,7 +274,11 @@ def shrink_and_confirm(binary, prop, seed, tier, res):
         etxt = p.stderr.decode(errors="replace")
         again = p.returncode == 3 and '"hang"' in etxt
         final = dict(res)
-        return path, again, final, "" if again else "the case finished (exit %s) when replayed alone with three times the CPU budget" % p.returncode
+        if not again and res.get("context"):
+            again = context_replay(binary, prop, seed, tier, res, env, "hang")
+            if again:
+                final["detail"] = (final.get("detail") or "") + " [recurs only with the history of its worker process: cases %d, %d, ... before it (the library reads memory left by earlier work)]" % (res["context"]["from"], res["context"]["from"] + res["context"]["step"])
+        return path, again, final, "" if again else "the case finished (exit %s) when replayed alone with three times the CPU budget, and also when replayed after the same preceding cases" % p.returncode
     if rf["class"] == "data-race":
         # the verdict of the race detector is confirmed by replaying the case alone; no shrinking
         p = subprocess.run([binary, "-replay", path], stdout=subprocess.PIPE, stderr=subprocess.PIPE, env=env, timeout=1800)
@@ -266,6 +295,8 @@ def shrink_and_confirm(binary, prop, seed, tier, res):
         # the violation is the death / stall of the process itself: it must recur in a fresh process
         etxt = p.stderr.decode(errors="replace")
         again = (p.returncode == 3 and '"hang"' in etxt) if rf["class"] == "hang" else (p.returncode not in (0, 1, 3))
+        if not again and res.get("context"):
+            again = context_replay(binary, prop, seed, tier, res, env, rf["class"])
         final = dict(res)
         final["detail"] = summarize_death(etxt, p.returncode) if again else res.get("detail")
         return path, again, final, "" if again else "the process survived when the minimised tape was replayed alone (exit %s)" % p.returncode
@@ -275,6 +306,36 @@ def shrink_and_confirm(binary, prop, seed, tier, res):
         return path, False, None, "replay produced no result: " + p.stderr.decode(errors="replace")[-1500:]
     ok = final.get("v") == "fail" and final.get("class") == rf["class"]
     return path, ok, final, "" if ok else "replay of the minimised tape gave %s/%s instead of fail/%s" % (final.get("v"), final.get("class"), rf["class"])
+
+
+def context_replay(binary, prop, seed, tier, res, env, cls):
+    """Replays a process-level failure together with the cases that preceded it in its worker process
+    (same indices, same order, fresh process): the library may read memory left by earlier work, which
+    is part of the history of the execution, not of the case alone."""
+    c = res["context"]
+    cmd = [binary, "-prop", prop, "-seed", str(seed), "-tier", tier, "-from", str(c["from"]), "-to", str(res["i"] + 1),
+           "-step", str(c["step"]), "-mark", "-casecpu", "%ds" % (3 * CASE_CPU.get(prop, CASE_CPU_DEFAULT))]
+    try:
+        p = subprocess.run(cmd, stdout=subprocess.PIPE, stderr=subprocess.PIPE, env=env, timeout=7200)
+    except subprocess.TimeoutExpired:
+        return False
+    started = None
+    done = set()
+    for line in p.stdout.splitlines():
+        try:
+            r = json.loads(line)
+        except Exception:
+            continue
+        if "start" in r and len(r) == 1:
+            started = r["start"]
+        else:
+            done.add(r.get("i"))
+    if started != res["i"] or started in done:
+        return False
+    etxt = p.stderr.decode(errors="replace")
+    if cls == "hang":
+        return p.returncode == 3 and '"hang"' in etxt
+    return p.returncode not in (0, 1, 3)
 
 
 def neutral_passes(binary, path, fid):
@@ -445,8 +506,9 @@ def check(prop, tier, seed):
         "wall_s": round(wall, 2),
         "violations": len(violations),
     }
-    os.makedirs(os.path.join(VERIF, "evidence"), exist_ok=True)
-    with open(os.path.join(VERIF, "evidence", prop + ".json"), "w") as f:
+    evdir = os.path.join(VERIF, "evidence" if REPO == "/repo" else "evidence-scratch")
+    os.makedirs(evdir, exist_ok=True)
+    with open(os.path.join(evdir, prop + ".json"), "w") as f:
         json.dump(ev, f, indent=1)
     log("%s %s seed=%d: %d cases (%d ok, %d skip, %d fail) %d events, %d distinct schedules, %.1fs" % (prop, tier, seed, n, len(oks), len(skips), len(fails), events, len(scheds), wall))
     if prop == "C19":
@@ -463,6 +525,7 @@ def check(prop, tier, seed):
 
 GEN = "cases are drawn from a choice tape seeded by hash(VERIF_SEED, property, case index); "
 RULES = {
+    "C03": GEN + "a case is one valid stream (or a > 4 MiB BWT block) plus 4-8 independently mutated variants of it, each decoded under the scheduler (evaluations = decodes); non-trivial = every case; distinct = distinct (family, configuration, schedule signature) triples",
     "C19": GEN + "a case is one file tree + option set + family (round trip / safety / kill points / sink failure) and several runs of the real CLI; kill-point cases first run fault-free under the in-process scheduler to count the events, then re-run with a self-SIGKILL at each chosen event (every event when the run has <= 120 events); simulated_events counts the events of all CLI runs; distinct = distinct (family, options, tree size) signatures",
     "C08": GEN + "a case is one scenario plus one simulated execution per sink/source call index of its fault-free run (evaluations = executions); non-trivial = the scenario makes at least one sink/source call; distinct = distinct (configuration signature, schedule signature) pairs",
     "C09": GEN + "a case is one valid stream plus one simulated decode per cut position (evaluations = decodes); every cut of streams <= 4 KiB in a quarter of the cases; distinct = distinct (configuration signature, schedule signature) pairs of cases with at least one cut",
@@ -520,6 +583,8 @@ def replay(path):
         again = p.returncode == 66 or "WARNING: DATA RACE" in etxt
     elif cls == "process-died":
         again = p.returncode not in (0, 1, 3)
+    if again is False and rf.get("context") and cls in ("hang", "process-died"):
+        again = context_replay(binary, prop, rf["seed"], rf["tier"], {"i": rf["case"], "context": rf["context"]}, env, cls)
     if again is not None:
         print(json.dumps({"prop": prop, "class": cls, "exit_status": p.returncode, "recurs": again, "stderr_head": summarize_death(etxt, p.returncode)}, indent=1))
         if again:
